@@ -227,6 +227,20 @@ void run_hilbert(const Op& op, Result& res) {
     const auto x = gen_signal(uint32_t(op.iarg(3)), size_t(n));
     int64_t k = 0;
     bool lt_mem = false;
+    // the imaginary branch across calls: sample kk must be the convolution of the filter's own taps (impz()) with the TRUE
+    // input history, whatever the framing and whatever the input was (silence, repeats, bursts); the taps themselves are
+    // a design result and not judged here
+    const arr_real taps = flt.impz();
+    long double hsum = 0;
+    for (int j = 0; j < M; ++j) {
+        hsum += std::fabs(static_cast<long double>(taps[j]));
+    }
+    double xmax = 1e-300;
+    for (double v : x) {
+        xmax = std::max(xmax, std::fabs(v));
+    }
+    const int64_t stride = std::max<int64_t>(1, (n * int64_t(M)) / 8000000);
+    int64_t im_checked = 0;
     std::unique_ptr<dsplib::HilbertFilter> twin;
     const uint64_t hz = mix(uint64_t(op.iarg(5)), 0x4117);
     const size_t copy_at = (frames.size() >= 2 && hz % 4 == 0) ? 1 + size_t((hz >> 8) % (frames.size() - 1)) : size_t(-1);
@@ -268,11 +282,25 @@ void run_hilbert(const Op& op, Result& res) {
                 return;
             }
             res.digest.f64(y[i].im);
+            if (stride == 1 || kk % stride == 0 || i == 0 || i == fr - 1) {
+                long double acc = 0;
+                for (int j = 0; j < M && j <= kk; ++j) {
+                    acc += static_cast<long double>(taps[j]) * static_cast<long double>(x[size_t(kk - j)]);
+                }
+                ++im_checked;
+                if (!(std::fabs(static_cast<double>(acc) - y[i].im) <= 1e-9 * static_cast<double>(hsum) * xmax)) {
+                    res.fail("C14:hilbert-imag-stream", fmt("HilbertFilter(flen=%lld, tw=%.6g), M=%d: imaginary part of output sample %lld (sample %d of a frame of %d) is %.17g, its own taps "
+                                                            "applied to the input history give %.17g; %zu frames",
+                                                            static_cast<long long>(flen), tw, M, static_cast<long long>(kk), i, fr, y[i].im, static_cast<double>(acc), frames.size()));
+                    return;
+                }
+            }
         }
         k += fr;
     }
     res.inc("sim.samples", n);
     res.inc("sim.hilbert_streams");
+    res.inc("sim.hilbert_imag_samples_checked", im_checked);
     res.inc("fault.segment", int64_t(frames.size()) - 1);
     res.inc("probe.hilbert_frame_shorter_than_delay", lt_mem);
     res.inc("probe.hilbert_even_length_request", flen % 2 == 0);
